@@ -15,6 +15,7 @@ use std::slice::SliceIndex;
 use std::hash::{Hash, Hasher};
 use std::slice::Iter;
 use vstd::std_specs::iter::IteratorSpec;
+use vstd::std_specs::cmp::OrdSpec;
 
 //@@UTIL_MACROS@@
 
@@ -37,6 +38,12 @@ pub assume_specification<T, I: SliceIndex<[T]>> [<[T]>::get_unchecked::<I>] (s: 
 pub assume_specification<T, I: SliceIndex<[T]>> [<[T]>::get_unchecked_mut::<I>] (s: &mut [T], i: I) -> (r: &mut <I as SliceIndex<[T]>>::Output)
     requires i.in_bounds(old(s)),
     ensures i.index_mut_postcondition(old(s), final(s), r, final(r));
+
+// ---- core::cmp::min / max (std: min returns the first argument unless the second is smaller; max returns the second unless the first is greater)
+pub assume_specification<T: Ord> [core::cmp::min::<T>] (a: T, b: T) -> (r: T)
+    ensures r == (if b.cmp_spec(&a) == core::cmp::Ordering::Less { b } else { a });
+pub assume_specification<T: Ord> [core::cmp::max::<T>] (a: T, b: T) -> (r: T)
+    ensures r == (if a.cmp_spec(&b) == core::cmp::Ordering::Greater { a } else { b });
 
 // ---- R-panic: documented panics (diverge; no obligation at the call site)
 #[verifier::external_body]
